@@ -27,6 +27,12 @@ def main():
     (CACHE / "parser_ir.json").write_text(json.dumps(ir))
     emit_lean.emit_parser_ir(ir)
     emit_lean.emit_tables(ir)
+    from harness.translate import regexes
+
+    try:
+        problems += [f"regex: {x}" for x in regexes.emit()]
+    except Exception as e:  # noqa: BLE001
+        problems.append(f"regex translator: {type(e).__name__}: {e}")
     return {"unmodelled": ir["unmodelled"], "problems": problems}
 
 
